@@ -232,3 +232,10 @@ Definition sends_of (f : string) : list (string * string * bool) :=
 Definition unbounded_handlers : list string :=
   filter (fun f => match sends_of f with [] => true | l => negb (forallb snd l) end) rendezvous_handlers.
 Definition rendezvous_sends_bounded : bool := match unbounded_handlers with [] => true | _ => false end.
+
+(* ... and the requester registers its channel BEFORE the request goes out (a response may arrive at once) *)
+Definition rendezvous_requesters : list string :=
+  ["messagepickup.Service.StatusRequest"; "messagepickup.Service.BatchPickup"; "mediator.Service.AddKey"].
+Definition late_requesters : list string :=
+  filter (fun f => negb (existsb (fun x => String.eqb (fst x) f && snd x) requesters)) rendezvous_requesters.
+Definition requesters_register_first : bool := match late_requesters with [] => true | _ => false end.
